@@ -150,9 +150,9 @@ pub fn world(seed: u64) -> World {
     let names = [name(&mut r, "alice"), name(&mut r, "bobby"), name(&mut r, "carol")];
     let pws = [format!("pa-{}", r.below(100000)), format!("pb ü {}", r.below(100000)), String::new()];
     let mut w = World { names, sks: [r.arr32(), r.arr32(), r.arr32()], pws, salts: [r.arr32(), r.arr32(), r.arr32()], file_pw: format!("file-{}", r.below(1000000)) };
-    // in a quarter of the worlds the file password, in an eighth the recipient's key password, ends with a
+    // in half of the worlds the file password, in an eighth the recipient's key password, ends with a
     // line terminator or a blank (a password taken from a file): those bytes belong to the password
-    if seed % 4 == 3 {
+    if seed % 2 == 1 {
         w.file_pw.push_str(["\n", "\r\n", " ", "\r"][((seed >> 2) % 4) as usize]);
     }
     if seed % 8 == 5 {
@@ -300,7 +300,7 @@ impl Family for B1 {
         "b1"
     }
     fn properties(&self) -> &'static [&'static str] {
-        &["C12", "C07", "C08", "C05", "C03", "C04"]
+        &["C12", "C07", "C08", "C05", "C03", "C04", "C01", "C02"]
     }
     fn budget(&self, tier: Tier, p: &str) -> u64 {
         let q = match p {
@@ -310,6 +310,8 @@ impl Family for B1 {
             "C07" => 92,
             "C03" => 92,
             "C04" => 92,
+            "C02" => 82,
+            "C01" => 52,
             _ => 42,
         };
         q * match tier {
@@ -455,7 +457,7 @@ impl Family for B1 {
 
     fn execute(&self, s: &Scn) -> RunOut {
         let mut out = RunOut::default();
-        out.props = vec!["C12", "C07", "C08", "C05", "C03", "C04"];
+        out.props = vec!["C12", "C07", "C08", "C05", "C03", "C04", "C01", "C02"];
         let mut w = world(s.seed % 16); // small pool of key worlds: the reference scrypt cache hits
         let mut sender_pos = s.sender_pos.clone();
         if s.lookalike_sender && s.op == Op::Decrypt {
@@ -644,8 +646,17 @@ impl Family for B1 {
             if code == 0 && !completed {
                 out.violations.push(viol("C12", "exit_0_without_completion", format!("wiring {} ({:?} {:?}): exit 0 but the destination does not hold the {} result ({} bytes present)", k, s.op, s.material, if matches!(s.op, Op::Decrypt | Op::PassDecrypt) { "complete plaintext" } else { "file that the reference decrypts to the plaintext and sender" }, output.as_ref().map(|o| o.len()).unwrap_or(0))));
             }
+            // the round-trip properties at the level of the tool (C01 key mode, C02 password mode)
+            let rt = if matches!(s.op, Op::PassEncrypt | Op::PassDecrypt) { "C02" } else { "C01" };
             if valid && code != 0 {
                 out.violations.push(viol("C12", "valid_operation_failed", format!("wiring {} ({:?}): a valid, fault-free operation exited {}: {}", k, s.op, code, stderr.chars().take(300).collect::<String>())));
+                out.violations.push(viol(rt, "cli_round_trip_failed", format!("wiring {} ({:?}): with the right keys and password the tool exited {}: {}", k, s.op, code, stderr.chars().take(300).collect::<String>())));
+            }
+            if valid && code == 0 && !completed {
+                out.violations.push(viol(rt, "cli_round_trip_wrong_result", format!("wiring {} ({:?}): exit 0, but the destination does not hold the expected result", k, s.op)));
+            }
+            if !valid && code == 0 && s.material == Material::WrongPassword && matches!(s.op, Op::PassDecrypt) {
+                out.violations.push(viol("C02", "cli_other_password_accepted", format!("wiring {}: password decrypt succeeded under a different password", k)));
             }
             if !valid && code == 0 {
                 out.violations.push(viol("C12", "invalid_operation_succeeded", format!("wiring {} ({:?} {:?}): exit 0", k, s.op, s.material)));
